@@ -87,11 +87,8 @@ def build_text(graphs, style):
     out = ''
     for i, p in enumerate(parts):
         if i:
-            # a comment must start on its own line
-            s = sep
-            if p.startswith('#') and '\n' not in s:
-                s = '\n'
-            out += s
+            # a comment may directly follow the previous graph on the same line
+            out += sep
         out += p
     if style.get('leading'):
         out = style['leading'] + out
